@@ -870,10 +870,37 @@ func (ex *Exec) appendSlices(st *State, s, t Term, sT, tT types.Type) Term {
 		w.Note("append: result never aliases its first argument (spare capacity not modelled)")
 		return MkSlice(r, IntLit(0), BLen(content), capv)
 	}
-	if _, isStruct := asStruct(elem); isStruct {
-		w.Note("append on slice of structs: content havoced")
+	if stt, isStruct := asStruct(elem); isStruct {
 		ln := Add(SLen(s), SLen(t))
-		return MkSlice(r, IntLit(0), ln, ln)
+		flat := true
+		for i := 0; i < stt.NumFields(); i++ {
+			if _, nested := asStruct(stt.Field(i).Type()); nested || isByteArray(stt.Field(i).Type()) {
+				flat = false
+			}
+		}
+		if !flat {
+			w.Note("append on slice of nested structs: content havoced")
+			return MkSlice(r, IntLit(0), ln, ln)
+		}
+		// elements of a struct slice live in the field arrays at elemref(base, index):
+		// the new backing store r holds copies of s's elements followed by t's
+		w.D.Fun("elemref", []Sort{SRef, SInt}, SRef)
+		for i := 0; i < stt.NumFields(); i++ {
+			an, as := w.FieldArray(elem, i)
+			old := w.heapGet(st.heap, an, as)
+			na := w.Fresh(an+"!append", as)
+			st.assume(Term{fmt.Sprintf("(forall ((x!q Ref)) (! (=> (not (= (addrbase x!q) %s)) (= (select %s x!q) (select %s x!q))) :pattern ((select %s x!q))))", r.S, na.S, old.S, na.S), SBool})
+			st.assume(Term{fmt.Sprintf("(forall ((i!q Int)) (! (=> (and (<= 0 i!q) (< i!q %s)) (= (select %s (elemref %s i!q)) (select %s (elemref %s (eidx %s i!q))))) :pattern ((select %s (elemref %s i!q)))))",
+				SLen(s).S, na.S, r.S, old.S, SBase(s).S, SOff(s).S, na.S, r.S), SBool})
+			st.assume(Term{fmt.Sprintf("(forall ((i!q Int)) (! (=> (and (<= 0 i!q) (< i!q %s)) (= (select %s (elemref %s (+ %s i!q))) (select %s (elemref %s (eidx %s i!q))))) :pattern ((select %s (elemref %s (eidx %s i!q))))))",
+				SLen(t).S, na.S, r.S, SLen(s).S, old.S, SBase(t).S, SOff(t).S, old.S, SBase(t).S, SOff(t).S), SBool})
+			// the common case of one appended element, stated directly
+			st.assume(Implies(Eq(SLen(t), IntLit(1)), Eq(Select(na, App(SRef, "elemref", r, SLen(s))), Select(old, App(SRef, "elemref", SBase(t), EIdx(SOff(t), IntLit(0)))))))
+			w.heapSet(st.heap, an, na)
+		}
+		capv := w.Fresh("append!cap", SInt)
+		st.assume(Ge(capv, ln))
+		return MkSlice(r, IntLit(0), ln, capv)
 	}
 	n, as := w.ElemArray(elem)
 	arr := w.heapGet(st.heap, n, as)
